@@ -133,6 +133,12 @@ func cmdVerify(args []string) {
 		seenFail := map[string]bool{}
 		shown := 0
 		for _, o := range res.Obls {
+			if o.Info {
+				if o.Result.Status == "unsat" {
+					fmt.Printf("  info: return at %s on path %s is unreachable under the contracts\n", o.Pos, o.Path)
+				}
+				continue
+			}
 			good := o.Result.Status == "unsat"
 			if o.Cover {
 				good = o.Result.Status != "unsat"
